@@ -366,7 +366,11 @@ def gen_scenario(rng, focus, client=None, variant=0):
         strategy = "tcp"
         blen = len(response_bytes(name, qtype, 1, tcp=True))
         r = rng.random()
-        if r < 0.3:
+        if variant < 2:
+            # fixed: a silent gap longer than query_timeout (300 ms) but well inside the lifetime, right after the
+            # prefix (variant 0) and in the middle of the body (variant 1), for every client
+            mode = "split:450:%d" % (2 if variant == 0 else 2 + blen // 2)
+        elif r < 0.3:
             cuts = sorted(set(rng.randrange(1, blen + 2) for _ in range(rng.choice([1, 2, 3, 6]))))
             mode = "split:%d:%s" % (rng.choice([3, 8]), ".".join(map(str, cuts)))
         elif r < 0.5:
@@ -379,6 +383,9 @@ def gen_scenario(rng, focus, client=None, variant=0):
             mode = "trail:%d" % rng.choice([1, 7, 600])
         elif r < 0.9:
             mode = "zero"
+        elif r < 0.95:
+            # a silent gap longer than query_timeout (300 ms) but well inside the lifetime, after the prefix or mid-body
+            mode = "split:450:%d" % rng.choice([1, 2, 3, blen // 2, blen + 1])
         else:
             mode = "full"
         qs = [mk(tcp=(rng.choice([0, 0, 40]), mode))]
@@ -423,6 +430,10 @@ def gen_scenario(rng, focus, client=None, variant=0):
             ("retry-then-tc-then-tcp-stall-1", "udp", 300, [[], [(20, "resptc")]], (0, "stall:1")),
             ("retry-then-tc-then-tcp-stall-body", "udp", 300, [[], [], [(20, "resptc")]], (0, "stall:9")),
             ("retry-then-tc-then-slow-accept", "udp", 300, [[], [], [(20, "resptc")]], (250, "full")),
+            ("tcp-late-first-byte-stall", "tcp", 300, [], (700, "stall:1")),
+            ("tcp-pause-after-prefix", "tcp", 300, [], (0, "split:450:2")),
+            ("tcp-pause-mid-body", "tcp", 300, [], (0, "split:450:12")),
+            ("tc-then-tcp-pause-after-prefix", "udp", 300, [[(20, "resptc")]], (0, "split:450:2")),
         ]
         nm_, strategy, qt, udp_, tcp_ = pats[variant % len(pats)]
         qs = [mk(udp=udp_, tcp=tcp_)]
